@@ -71,6 +71,9 @@ type Ctx struct {
 	pooled  []string
 	specSigs map[string]specSig
 	defDecl map[string]bool
+	foralls []forallRec
+	skn     int
+	rootFrame *Frame
 }
 
 type inputVar struct {
